@@ -1248,12 +1248,14 @@ impl World {
                     let lo = bar.m.lo.unwrap_or(0).max(bar.m.shown.unwrap_or(0)).min(hi);
                     let mut kind = Kind::NoMatch;
                     let mut used = 1usize;
+                    // (a wrapped row makes states ambiguous: "B0b 1" is a whole state and also the first row of
+                    // "B0b 1" + "0"; untagged continuation rows can only belong to this bar, so the state that
+                    // explains the most rows is the one on the screen - the oldest such state)
                     for k in lo..=hi {
                         let p = flat(&bar.m.snaps[k]);
-                        if starts(r, &p) {
+                        if starts(r, &p) && (kind == Kind::NoMatch || p.len() > used) {
                             kind = Kind::Match(k);
                             used = p.len();
-                            break;
                         }
                     }
                     if kind == Kind::NoMatch {
